@@ -17,18 +17,18 @@ Definition pydict := list (N * N).
 Definition dict_has (k:N) (d:pydict) : bool := existsb (fun e => N.eqb (fst e) k) d.
 Fixpoint dict_get (k:N) (d:pydict) : option N :=
   match d with [] => None | (k', v) :: r => if N.eqb k' k then Some v else dict_get k r end.
-Definition dict_len (d:pydict) : N := N.of_nat (List.length d).
+Definition dict_len (d:pydict) : N := N.of_nat (Datatypes.length d).
 Fixpoint dict_put (k v:N) (d:pydict) : pydict :=
   match d with
   | [] => [(k, v)]
   | (k', v') :: r => if N.eqb k' k then (k', v) :: r else (k', v') :: dict_put k v r
   end.
 (** the dict that the model's table (names in first-occurrence order) stands for *)
-Definition dict_of (tbl:symtab) : pydict := combine tbl (map N.of_nat (seq 0 (List.length tbl))).
+Definition dict_of (tbl:symtab) : pydict := combine tbl (map N.of_nat (seq 0 (Datatypes.length tbl))).
 Definition dict_names (d:pydict) : symtab := map fst d.
 
 (** [len(x)] on tuples / lists / dicts of the model *)
-Definition py_len {A} (l:list A) : N := N.of_nat (List.length l).
+Definition py_len {A} (l:list A) : N := N.of_nat (Datatypes.length l).
 (** [sum([...])] *)
 Definition py_sum (l:list N) : N := fold_right N.add 0 l.
 (** [var.name] of an EVar / SVar object and [EVar(id)] / [SVar(id)]: variables are their ids in the model *)
